@@ -221,7 +221,8 @@ Definition check_served_hook (st : mstate) (c : conn) (rs : rset) : mstate :=
   fold_left (fun s x => match snd x with
                         | RErr _ => s
                         | _ => if mem (fst x) (fetched s)
-                                  || (negb (Nat.eqb (base_of (fst x)) (fst x)) && existsb (fun f => Nat.eqb (base_of f) (base_of (fst x))) (fetched s))
+                                  || existsb (fun f => Nat.eqb (base_of f) (base_of (fst x))) (fetched s)   (* some query variant of the same resource
+                                                                                  (an id may alias a normalised query, also the id without a query) *)
                                   || existsb (fun e => match e with SDelete => true | _ => false end)
                                              (match lookup (fst x) (stream s) with Some l => l | None => [] end)
                                then s   (* fetched under the standing subscription, or the service announced its deletion
